@@ -50,6 +50,7 @@ impl Recorder {
 pub fn child(lines: &[Value], max: usize, nargs: usize) {
     for (oi, o) in origins_with_twins(lines, max).iter().enumerate() {
         if let BuildOut::Ok(s) = build(&spec_of(o), o.sig.clone(), o.d) {
+            if s.to_json_string().contains("null") { continue; }
             println!("T {} {:016x}", oi, digest_bits(&s.to_json_string(), &[]));
             for a in 0..nargs {
                 let (x, stab, _) = arg_for(&o.key, s.dim(), a);
@@ -78,6 +79,8 @@ pub fn run(lines: &[Value], opts: &ApiOpts, trace_path: &str) -> Summary {
     };
     for (oi, o) in origins.iter().enumerate() {
         let s = match build(&spec_of(o), o.sig.clone(), o.d) { BuildOut::Ok(s) => s, _ => { sm.count("origin_not_built"); continue; } };
+        // JSON cannot hold non-finite doubles (serde_json writes null): such a table is outside "a format that preserves f64 exactly"
+        if s.to_json_string().contains("null") { sm.count("origin_with_nonfinite_table_skipped"); continue; }
         let sid = next_sid; next_sid += 1;
         rec.lock().unwrap().events.push(json!({"ev": "Build", "sid": sid, "origin": oi as i64 + 1}));
         query(&rec, sid, s.as_ref());
